@@ -7,5 +7,13 @@ claim("C19",
   "Static ownership argument for data-race freedom: no package-level variable is accessed unsynchronised from code reachable from Compile/Run (call graph + SSA), run-time code never stores into the shared compiled program, no go/unsafe/cgo, library calls only into allow-listed goroutine-safe packages. Holds for every schedule at once, which no test can sample.",
   "Trusts the documented goroutine-safety of the allow-listed standard-library packages and the over-approximation of the VTA call graph.",
   "global-write reachability (VTA call graph) + SSA ownership analysis", "DESIGN.md section 5 C19")
-for pid in ["C01","C02","C03","C04","C05","C06","C07","C08","C09","C10","C11","C12","C14","C15","C16","C17","C18","C20"]:
+claim("C11",
+  "Static table extraction: the evaluator's dispatch (executeBinaryExpr/executeUnaryExpression) and the nine coercion accessors are partially evaluated over the finite tag domain (operator x operand types) on go/ssa, and every documented cell of the Type Coersion table (parsed from docs/language/LanguageDetails.md on each run) is compared with the extracted leaf term (accessors, Go operator, result constructor); the Pratt parser's binding powers are folded per operator and checked against the documented precedence levels and left associativity. Covers all operand-type combinations at once.",
+  "Trusts strconv and Go's operators; the documentation table is the oracle; a restructured evaluator whose branches no longer fold over the tags is reported UNDECIDED, not violated.",
+  "table extraction by partial evaluation (conditional constant propagation per cell) on SSA vs. the documented table", "DESIGN.md section 5 C11")
+claim("C12",
+  "Static table extraction: checkBinaryExpr/checkUnaryExpr are partially evaluated over {string,number,bool,error}^2 x 13 operators and compared cell by cell, both directions, with the documented table; accepted cells are cross-checked against the evaluator's leaves (no panic, promised result type); checkIf/checkReturn/checkBreak/checkContinue/checkLoop are evaluated over their finite inputs; both definition generators are shown to call the checker on every statement and to fail on the first PTERROR; statement/expression dispatch completeness by MakeInterface-producer vs type-switch-case comparison.",
+  "Trusts the documentation table as specification; flow-sensitive typing is excluded by the property; dynamic type of variables equals checked type only under C09.R3.",
+  "decision-table extraction by partial evaluation on SSA + type-switch completeness", "DESIGN.md section 5 C12")
+for pid in ["C01","C02","C03","C04","C05","C06","C07","C08","C09","C10","C14","C15","C16","C17","C18","C20"]:
     NA[pid] = "check under construction in this session (rules designed in DESIGN.md section 5, not yet implemented in the checker); not claimed until its rules run"
